@@ -323,7 +323,7 @@ pub fn judge_responses(frames: &[SFrame], limit: u32, out: &[u8], closed: bool, 
                     }
                     ri += 1;
                 } else {
-                    v.push((vec!["C13"], format!("frame {}: request with a body above the item limit {} was not answered with 'too large' at its place (next response: {:?})", fi, limit, next.map(|r| (r.opcode, r.opaque, r.status)))));
+                    v.push((vec!["C13", "C12"], format!("frame {}: request with a body above the item limit {} was not answered with 'too large' at its place (next response: {:?})", fi, limit, next.map(|r| (r.opcode, r.opaque, r.status)))));
                     return v;
                 }
             }
@@ -435,7 +435,26 @@ pub fn run(r: &mut Runner, level: &str, profile: &str, seed: u64, count: u64, ti
                 st.samples.push(format!("limit {} frames {:?} cuts {:?} -> {}", limit, frames.iter().map(|f| format!("{:?}:{:#x}:{}B", f.kind, f.opcode, f.bytes.len())).collect::<Vec<_>>(), cuts, &canonical[..canonical.len().min(120)]));
             }
             match &reference {
-                None => reference = Some((canonical, dump)),
+                None => {
+                    // P12: nothing received after quit / quitq is executed: the store must equal that of the
+                    // stream cut right after the quit
+                    if let Some(qi) = frames.iter().position(|f| matches!(f.kind, Kind::Quit | Kind::QuitQ)) {
+                        if qi + 1 < frames.len() && level == "conn" {
+                            let upto: Vec<u8> = frames[..=qi].iter().flat_map(|f| f.bytes.clone()).collect();
+                            let s2 = r.ops.len();
+                            r.exec(&format!("new {}", limit));
+                            r.exec("conn");
+                            r.exec(&format!("chunk {}", hex(&upto)));
+                            r.exec("eof");
+                            let d2 = r.exec("dump");
+                            if d2 != dump {
+                                let prog = r.prog_start.len() - 1;
+                                r.violations.push((prog, vec!["C12"], s2, format!("requests received after quit were executed: store after the whole stream [{}] differs from the store after the stream cut behind the quit [{}]; whole stream: {}", trunc(&dump), trunc(&d2), hex(&stream))));
+                            }
+                        }
+                    }
+                    reference = Some((canonical, dump))
+                }
                 Some((c0, d0)) => {
                     if *c0 != canonical || *d0 != dump {
                         let prog = r.prog_start.len() - 1;
@@ -459,5 +478,81 @@ fn trunc(s: &str) -> String {
         format!("{}…({} chars)", &s[..160], s.len())
     } else {
         s.to_string()
+    }
+}
+
+/// C10: the boundary grid of header fields (sampled deterministically from the full product), each header
+/// followed by as many filler bytes as it announces (capped), fed in 4 KiB reads through the real decoder
+pub fn run_grid(r: &mut Runner, seed: u64, count: u64) -> StreamStats {
+    let mut rng = Rng::new(seed ^ 0x6a1d);
+    let mut st = StreamStats { streams: 0, cases: 0, kinds: BTreeMap::new(), distinct: Default::default(), samples: vec![] };
+    let opcodes: Vec<u8> = (0u8..=0x26).chain([0x40u8, 0x7f, 0x80, 0xff]).collect();
+    let keylens: [u16; 6] = [0, 1, 5, 250, 251, 65535];
+    let extras: [u8; 7] = [0, 4, 8, 12, 20, 21, 255];
+    for _ in 0..count {
+        let limit: u32 = *rng.pick(&[1024u32, 2048, 4096, 65536]);
+        let opc = *rng.pick(&opcodes);
+        let kl = *rng.pick(&keylens);
+        let el = *rng.pick(&extras);
+        let ke = kl as u32 + el as u32;
+        let bodies: [u32; 14] = [0, ke.saturating_sub(1), ke, ke + 1, ke + 7, limit - 1, limit, limit + 1, limit + ke, limit + ke + 1, 2 * limit, limit + 65790, 0x7fff_ffff, 0xffff_ffff];
+        let body = *rng.pick(&bodies);
+        let magic = if rng.chance(1, 12) { *rng.pick(&[0x81u8, 0, 0xff]) } else { 0x80 };
+        let dtype = if rng.chance(1, 12) { *rng.pick(&[1u8, 0xff]) } else { 0 };
+        let mut h = vec![magic, opc];
+        h.extend_from_slice(&kl.to_be_bytes());
+        h.push(el);
+        h.push(dtype);
+        h.extend_from_slice(&[0, 0]);
+        h.extend_from_slice(&body.to_be_bytes());
+        h.extend_from_slice(&(rng.next() as u32).to_be_bytes());
+        h.extend_from_slice(&u64_field(&mut rng).to_be_bytes());
+        let avail = match rng.below(20) {
+            0..=4 => 0usize,
+            5..=9 => (body as usize / 2).min(3000),
+            10 => (body as usize).min(limit as usize + 70000),
+            _ => (body as usize).min(limit as usize + 600),
+        };
+        let sig = (opc as u64) | ((kl as u64) << 8) | ((el as u64) << 24) | ((body as u64) << 32);
+        st.distinct.insert(sig ^ ((magic as u64) << 1) ^ (dtype as u64));
+        *st.kinds.entry(format!("op{:#04x}", opc)).or_insert(0) += 1;
+        st.cases += 1;
+        st.streams += 1;
+        r.exec(&format!("new {}", limit));
+        r.exec("codec");
+        // the body filler looks like further (valid) requests so that a mis-skip would execute something
+        let unit = wire::set_like(op::SET, b"smuggled", b"1", 0, 0, 0, 1).bytes();
+        let mut filler: Vec<u8> = Vec::with_capacity(avail);
+        while filler.len() < avail {
+            filler.extend_from_slice(&unit);
+        }
+        filler.truncate(avail);
+        let first_extra = rng.below(3) as usize * 7;
+        let mut first = h.clone();
+        first.extend_from_slice(&filler[..first_extra.min(filler.len())]);
+        let o = r.exec(&format!("dec {}", hex(&first)));
+        let mut off = first_extra.min(filler.len());
+        let mut dead = o.ends_with(" E") || o.contains(" P:");
+        while off < filler.len() && !dead {
+            let n = (filler.len() - off).min(4096);
+            let o = r.exec(&format!("dec {}", hex(&filler[off..off + n])));
+            dead = o.ends_with(" E") || o.contains(" P:");
+            off += n;
+        }
+        r.exec("dump");
+        if st.samples.len() < 3 {
+            st.samples.push(format!("limit {} header {} followed by {} filler bytes", limit, hex(&h), avail));
+        }
+    }
+    r.finish();
+    st
+}
+
+fn u64_field(rng: &mut Rng) -> u64 {
+    match rng.below(4) {
+        0 => 0,
+        1 => u64::MAX,
+        2 => 1,
+        _ => rng.next(),
     }
 }
